@@ -12,11 +12,11 @@ Trace == ndJsonDeserialize(TraceFile)
 Ids == 1..MaxId
 Finished == {"refused", "dropped", "acked"}
 
-VARIABLES l, fate, meta, committed, out
-mvars == <<l, fate, meta, committed, out>>
+VARIABLES l, fate, meta, committed, committing, out
+mvars == <<l, fate, meta, committed, committing, out>>
 
 NoMeta == [topic |-> -1, part |-> -1, off |-> -1, epoch |-> -1]
-Fresh == /\ fate = [i \in Ids |-> "unread"] /\ meta = [i \in Ids |-> NoMeta] /\ committed = {}
+Fresh == /\ fate = [i \in Ids |-> "unread"] /\ meta = [i \in Ids |-> NoMeta] /\ committed = {} /\ committing = {}
 Init == l = 1 /\ Fresh /\ out = {}
 
 SeqToSet(s) == {s[i] : i \in 1..Len(s)}
@@ -24,6 +24,14 @@ SameTP(a, b) == meta[a].topic = meta[b].topic /\ meta[a].part = meta[b].part
 \* franz-go keeps the head that is largest by (epoch, offset)
 Less(a, b) == a.epoch < b.epoch \/ (a.epoch = b.epoch /\ a.head < b.head)
 HeadOf(r) == [head |-> meta[r].off + 1, epoch |-> meta[r].epoch]
+
+\* marks observed right after a record was handed to the pipeline (the consumer must not mark on its own what passes an unfinished record)
+\* only heads that do not come from a Commit (issued or in progress) are judged here; commit-derived heads are judged at the Commit line
+MarksViol(t) ==
+  LET fromCommit(m) == \E c \in committed \cup committing : meta[c].topic = m.topic /\ meta[c].part = m.part /\ meta[c].off + 1 = m.head
+  IN UNION {{[kind |-> "mark_past_unfinished", id |-> t.id, other |-> q, info |-> "not_from_commit"] :
+               q \in {x \in Ids : fate[x] = "inflight" /\ meta[x].topic = m.topic /\ meta[x].part = m.part /\ meta[x].off < m.head}}
+            : m \in {x \in SeqToSet(t.marks) : ~fromCommit(x)}}
 
 CommitViol(t, com) ==
   LET id == t.id
@@ -46,24 +54,27 @@ CommitViol(t, com) ==
 Step ==
   /\ l <= Len(Trace)
   /\ LET t == Trace[l] IN
-       /\ CASE t.ev = "Reset" -> /\ fate' = [i \in Ids |-> "unread"] /\ meta' = [i \in Ids |-> NoMeta] /\ committed' = {}
+       /\ CASE t.ev = "Reset" -> /\ fate' = [i \in Ids |-> "unread"] /\ meta' = [i \in Ids |-> NoMeta] /\ committed' = {} /\ committing' = {}
                                  /\ UNCHANGED out
             [] t.ev = "InCall" -> /\ fate' = [fate EXCEPT ![t.id] = "inflight"]
                                   /\ meta' = [meta EXCEPT ![t.id] = [topic |-> t.topic, part |-> t.part, off |-> t.off, epoch |-> t.epoch]]
-                                  /\ UNCHANGED <<committed, out>>
+                                  /\ UNCHANGED <<committed, committing, out>>
+            [] t.ev = "CommitCall" -> /\ committing' = committing \cup {t.id} /\ UNCHANGED <<fate, meta, committed, out>>
             [] t.ev = "InRet" -> /\ fate' = [fate EXCEPT ![t.id] = IF t.ok THEN @ ELSE "refused"]
-                                 /\ UNCHANGED <<meta, committed, out>>
+                                 /\ UNCHANGED <<meta, committed, committing, out>>
             [] t.ev = "DoRet" -> /\ fate' = [fate EXCEPT ![t.id] = IF t.res = "discard" THEN "dropped" ELSE @]
-                                 /\ UNCHANGED <<meta, committed, out>>
+                                 /\ UNCHANGED <<meta, committed, committing, out>>
             [] t.ev = "SendRet" -> /\ fate' = [i \in Ids |-> IF t.ok /\ i \in SeqToSet(t.ids) THEN "acked" ELSE fate[i]]
-                                   /\ UNCHANGED <<meta, committed, out>>
+                                   /\ UNCHANGED <<meta, committed, committing, out>>
             [] t.ev = "Commit" -> /\ committed' = committed \cup {t.id}
                                   /\ out' = out \cup {[run |-> t.run, n |-> t.n, v |-> v] : v \in CommitViol(t, committed \cup {t.id})}
-                                  /\ UNCHANGED <<fate, meta>>
+                                  /\ UNCHANGED <<fate, meta, committing>>
+            [] t.ev = "Marks" -> /\ out' = out \cup {[run |-> t.run, n |-> t.n, v |-> v] : v \in MarksViol(t)}
+                                 /\ UNCHANGED <<fate, meta, committed, committing>>
             [] t.ev = "End" -> /\ out' = IF t.idle THEN out ELSE out \cup {[run |-> t.run, n |-> t.n,
                                               v |-> [kind |-> "not_idle", id |-> 0, other |-> 0, info |-> ""]]}
-                               /\ UNCHANGED <<fate, meta, committed>>
-            [] OTHER -> UNCHANGED <<fate, meta, committed, out>>
+                               /\ UNCHANGED <<fate, meta, committed, committing>>
+            [] OTHER -> UNCHANGED <<fate, meta, committed, committing, out>>
   /\ l' = l + 1
 
 Spec == Init /\ [][Step]_mvars
